@@ -152,7 +152,10 @@ func (e *Exec) staticCall(st *State, instr ssa.Instruction, fn *ssa.Function, cl
 	}
 	if isLocal(orig) {
 		fc := e.cs.Funcs[name]
-		small := orig.Parent() != nil && len(e.loopsOf(orig)) == 0 && len(orig.Blocks) <= 12
+		// closures, and helper functions that have no contract (none exists on the
+		// pinned tree; an extracted helper on a changed tree), are inlined when
+		// they are small and loop-free: exact, and keeps the caller's proof going
+		small := len(e.loopsOf(orig)) == 0 && (orig.Parent() != nil && len(orig.Blocks) <= 12 || orig.Parent() == nil && len(orig.Blocks) <= 24 && orig.Blocks != nil)
 		if (fc != nil && fc.Inline) || (fc == nil && small) {
 			if e.inlineDepth < 6 && orig.Blocks != nil {
 				e.inline(st, instr, orig, clo, args, k)
